@@ -66,7 +66,9 @@ func physResolve(p string, depth int) (string, bool) {
 	return cur, true
 }
 
-func insideDir(loc, dir string) bool { return loc == dir || strings.HasPrefix(loc, strings.TrimSuffix(dir, "/")+"/") }
+func insideDir(loc, dir string) bool {
+	return loc == dir || strings.HasPrefix(loc, strings.TrimSuffix(dir, "/")+"/")
+}
 
 type fsEntry struct {
 	Path string `json:"path"`
@@ -160,11 +162,11 @@ func suitePathGuard(c *Ctx) error {
 	ln("/bin", "l_bin")
 	ln("/sbin", "l_sbin")
 	ln("/tmp", "l_tmp")
-	ln("l_etc", "chain1")         // chain1 -> l_etc -> /etc
-	ln("chain1", "chain2")        // chain2 -> chain1 -> l_etc -> /etc
-	ln("plain", "l_plain")        // harmless
+	ln("l_etc", "chain1")          // chain1 -> l_etc -> /etc
+	ln("chain1", "chain2")         // chain2 -> chain1 -> l_etc -> /etc
+	ln("plain", "l_plain")         // harmless
 	ln("../l_etc", "plain/up_etc") // relative target with ..
-	ln("/etc/passwd", "l_passwd") // leaf symlink to an existing file inside
+	ln("/etc/passwd", "l_passwd")  // leaf symlink to an existing file inside
 	ln("/nonexistent-target-xyz", "dangling")
 	ln(filepath.Join(root, "usr"), "l_fakeusr")
 
@@ -329,6 +331,81 @@ func suitePathGuard(c *Ctx) error {
 			gc := cases[idx[j]]
 			c.ViolateNoInput("C20", "C20/model-correspondence", fmt.Sprintf("guard on %q (cwd %s): impl %s, model %s", gc.Path, gc.Cwd, realOut[j], o),
 				map[string]interface{}{"broken": "correspondence Sfw.PathGuard.guard (theorems C20_*)", "case": gc, "line": lines[j]})
+		}
+	}
+
+	// ---- the location that is OPENED is the location that was CHECKED ----
+	// Real opens (guard-only off) on harmless spellings under the scratch directory.  The guard reasons
+	// about the physical location of the path; the database files must appear exactly there.  A
+	// spelling such as e/plink/../db - e a symlink to P, P/plink a symlink into another tree, P/db an
+	// existing directory - resolves physically to <other>/x/db but lexically to P/db: if the two ever
+	// differ, a path the guard accepts (outside P) puts its files inside P.
+	pebbledb.VerifSetGuardOnly(false)
+	{
+		or := filepath.Join(root, "open")
+		mkd := func(p string) { os.MkdirAll(filepath.Join(or, p), 0o755) }
+		mkd("P/db")
+		mkd("P/db4")
+		mkd("other/x/y")
+		mkd("plain2")
+		os.Symlink(filepath.Join(or, "P"), filepath.Join(or, "e"))
+		os.Symlink(filepath.Join(or, "other/x/y"), filepath.Join(or, "P/plink"))
+		os.Symlink(filepath.Join(or, "plain2"), filepath.Join(or, "l_plain2"))
+		spellings := []struct{ cwd, path string }{
+			{"/", filepath.Join(or, "e/plink/../db")},
+			{"/", filepath.Join(or, "l_plain2/../other/newdb")},
+			{"/", filepath.Join(or, "plain2/sub/../fresh")},
+			{filepath.Join(or, "e"), "plink/../db4"},
+			{filepath.Join(or, "plain2"), "../other/./reldb"},
+			{"/", filepath.Join(or, "plain2//direct")},
+		}
+		findDBs := func() []string {
+			var out []string
+			filepath.WalkDir(or, func(p string, d os.DirEntry, err error) error {
+				if err == nil && !d.IsDir() && strings.HasPrefix(d.Name(), "MANIFEST-") {
+					out = append(out, filepath.Dir(p))
+				}
+				return nil
+			})
+			sort.Strings(out)
+			return out
+		}
+		for _, sp := range spellings {
+			before := findDBs()
+			os.Chdir(sp.cwd)
+			abs := sp.path
+			if !filepath.IsAbs(abs) {
+				abs = sp.cwd + "/" + abs
+			}
+			want, _ := physResolve(abs, 0)
+			ps, err := pebbledb.NewPebbleScanner(sp.path, pebbledb.PebbleScannerOptions{})
+			os.Chdir(origWd)
+			c.Res.Evaluations++
+			c.Res.Nontrivial++
+			c.Count("real_open_spellings")
+			if err == nil {
+				ps.Close()
+			}
+			after := findDBs()
+			var created []string
+			seenB := map[string]bool{}
+			for _, b := range before {
+				seenB[b] = true
+			}
+			for _, a := range after {
+				if !seenB[a] {
+					created = append(created, a)
+				}
+			}
+			rp := map[string]interface{}{"cwd": sp.cwd, "path": sp.path, "physical_location": want, "databases_created": created, "open_error": fmt.Sprint(err),
+				"layout": "e -> P ; P/plink -> other/x/y ; P/db exists ; l_plain2 -> plain2 (all under " + or + ")"}
+			if err != nil {
+				c.Skip("real_open_failed:" + trunc(err.Error(), 60))
+				continue
+			}
+			if len(created) != 1 || created[0] != want {
+				c.Violate("C20", "C20/opened-location-differs-from-checked-location", fmt.Sprintf("NewPebbleScanner(%q) (cwd %s): the guard checks %s, database files were created in %v (open error: %v)", sp.path, sp.cwd, want, created, err), rp)
+			}
 		}
 	}
 	return nil
